@@ -67,7 +67,7 @@ def shards(tier):
 
 def floors(tier):
     f = {"histories": 400, "operations": 5000, "probes_compared": 30000, "objects_probed_after_5plus_later_ops": 1000,
-         "versioned_create_without_id": 50, "untouched_twins_probed_later": 200, "named_type_verdicts": 5000, "versioned_create_reusing_a_name": 60, "versioned_create_with_private_scheme_id": 40, "ambient_snapshots_compared": 4000}
+         "versioned_create_without_id": 50, "untouched_twins_probed_later": 200, "named_type_verdicts": 5000, "versioned_create_reusing_a_name": 60, "versioned_create_with_private_scheme_id": 30, "versioned_create_with_fragment_only_difference": 30, "ambient_snapshots_compared": 4000}
     for op in ("redefine", "redefine_many", "remove", "extend_override", "extend_typechecker", "extend_nochange", "create",
                "create_version", "extend_version", "create_default_types", "validator_types", "checks", "cls_checks", "formats_subset", "validator_twins", "validator_named_types"):
         f["op:" + op] = 150
@@ -419,7 +419,11 @@ def run_history(rec, ops, base_draft):
                         idk = "id" if "id" in meta else "$id"
                         meta[idk] = ("http://vf.example/meta/future-%d" % (op["r"] % 3)) if rng.random() < 0.6 else \
                             "http://vf.example/meta/%d/%d" % (op["r"], n)
-                        if rng.random() < 0.25:
+                        if rng.random() < 0.2:
+                            # an id that differs from a bundled draft's only by a (non-empty) fragment: another id
+                            meta[idk] = impl.META_ID[rng.choice(impl.DRAFTS)].rstrip("#") + "#vf-strict-%d" % (op["r"] % 2)
+                            rec.count("versioned_create_with_fragment_only_difference")
+                        elif rng.random() < 0.25:
                             # an id under a scheme of the caller's own (nothing in the standard library knows it)
                             meta[idk] = "%s://meta.example/v%d/schema" % (rng.choice(["acme", "x-vf-meta", "tag+json"]), n)
                             rec.count("versioned_create_with_private_scheme_id")
